@@ -163,42 +163,71 @@ COLLS = ["recording_set", "dataset", "annotation_set", "annotation_project", "ev
          "model_run", "evaluation"]
 RICH = {k: True for k in G_KEYS}
 MIN = {k: False for k in G_KEYS}
-# how many presence flags each collection's builder consumes (upper bound) -> windows of 8
-NFLAGS = {"recording_set": 24, "dataset": 24, "annotation_set": 56, "annotation_project": 64, "evaluation_set": 56,
-          "prediction_set": 48, "model_run": 48, "evaluation": 88}
+class _Counting(graph.Fixed):
+    def __init__(self):
+        super().__init__(True)
+        self.bits = 0
+
+    def bit(self):
+        self.bits += 1
+        return True
+
+
+def nflags(coll):
+    """number of presence flags the focus objects of `coll` consume (all-rich)"""
+    c = _Counting()
+    build(coll, c, 2, dict(RICH))
+    return c.bits
+
+
+# flags [0, SHARED) are the focus recording's and are consumed first by every collection
+def windows(coll, size, start=0):
+    n = nflags(coll)
+    return [(skip, min(size, n - skip)) for skip in range(start, n, size)]
 
 
 def plan():
     obs = []
     q = ("quick", "thorough")
+    rec_flags = nflags("recording_set")
     for coll in COLLS:
         for audio in (False, True):
-            # (1) structure choices symbolic, leaves rich
+            # (1) structure choices symbolic (all 2^4 combinations), leaves rich
             groups = [["second", "rec1_rich", "desc", "own_tags"]]
             if coll not in ("recording_set", "dataset"):
                 groups = [["second", "two_events", "with_seq", "parent"],
                           ["clip1_other_rec", "se1_other_rec", "seq_two", "rich2"],
                           ["desc", "own_tags", "extra_task", "rec1_rich"]]
             for gi, gsym in enumerate(groups):
-                tiers = q if (audio == (gi % 2 == 0)) or gi == 0 else ("thorough",)
+                quick = (gi == 0 and not audio) or (gi == 2 and audio and coll in ("evaluation_set", "annotation_project"))
                 obs.append(Ob("%s-%s-structure%d" % (coll, "dir" if audio else "nodir", gi), ob_roundtrip, "real", 900,
                               dict(coll=coll, g=RICH, gsym=gsym, nbits=0, nnums=4, rest=True, audio_dir=audio,
                                    geom=(gi + COLLS.index(coll)) % 9),
-                              tiers, twins=("any",), twin_timeout=300))
-            # (2) presence flags, a window of 8 at a time, other flags rich or minimal
-            if audio:
+                              q if quick else ("thorough",), twins=("any",), twin_timeout=300))
+        # (2) presence flags: every window of consecutive flags, all combinations inside the window,
+        #     the other flags all present (rich) or all absent (min)
+        start = 0 if coll == "recording_set" else rec_flags
+        quick_colls = ("recording_set", "annotation_set", "prediction_set", "evaluation", "annotation_project")
+        for (skip, size) in windows(coll, 4, start):
+            if coll not in quick_colls:
+                break
+            if coll == "evaluation" and skip < nflags("annotation_set"):
                 continue
-            for skip in range(0, NFLAGS[coll], 8):
-                for rest in (True, False):
-                    tiers = q if (rest and skip < 24) else ("thorough",)
-                    obs.append(Ob("%s-flags%02d-%s" % (coll, skip, "rich" if rest else "min"), ob_roundtrip, "real",
-                                  1200, dict(coll=coll, g=RICH if rest else MIN, gsym=[], nbits=8, nnums=2, skip=skip,
-                                             rest=rest, audio_dir=False, geom=(skip // 8) % 9),
-                                  tiers, twins=("any",), twin_timeout=300))
-    # (3) every geometry type through a sound event (thorough: all collections that hold sound events)
+            if coll == "annotation_project" and skip < nflags("annotation_set"):
+                continue
+            obs.append(Ob("%s-flags%02d+%d-rich" % (coll, skip, size), ob_roundtrip, "real", 900,
+                          dict(coll=coll, g=RICH, gsym=[], nbits=size, nnums=2, skip=skip, rest=True, audio_dir=False,
+                               geom=(skip // 4) % 9), ("quick",), twins=("any",), twin_timeout=300))
+        for (skip, size) in windows(coll, 6, 0):
+            for rest in (True, False):
+                obs.append(Ob("%s-flags%02d+%d-%s" % (coll, skip, size, "rich" if rest else "min"), ob_roundtrip,
+                              "real", 3000, dict(coll=coll, g=RICH if rest else MIN, gsym=[], nbits=size, nnums=2,
+                                                 skip=skip, rest=rest, audio_dir=False, geom=(skip // 6) % 9),
+                              ("thorough",), twins=("any",), twin_timeout=300))
+    # (3) every geometry type through a sound event
     for kind in range(9):
         obs.append(Ob("geometry-kind%d" % kind, ob_roundtrip, "real", 600,
-                      dict(coll="annotation_set", g=MIN, gsym=[], nbits=2, nnums=4, skip=0, rest=False,
+                      dict(coll="annotation_set", g=MIN, gsym=[], nbits=2, nnums=4, skip=rec_flags, rest=False,
                            audio_dir=False, geom=kind), q, twins=("any",), twin_timeout=300))
     return obs
 
@@ -226,6 +255,6 @@ INFO = dict(
         "CrossHair 0.0.110 + z3",
     ],
     outside=["Recording extras (extra='allow')", "non-finite floats", "terms with more than a label",
-             "joint variation of more than 8 presence flags", "the JSON text itself (structural model; every witness "
+             "joint variation of more than 6 presence flags", "the JSON text itself (structural model; every witness "
              "is replayed through the real json/pydantic save+load)"],
 )
